@@ -1,4 +1,8 @@
 import KfacVerif.Driver.All
 import KfacVerif.Props.C06
+import KfacVerif.Props.C08
 import KfacVerif.Props.C14
+import KfacVerif.Props.C16
 import KfacVerif.Props.C17
+import KfacVerif.Props.C19
+import KfacVerif.Props.C20
